@@ -634,10 +634,12 @@ func genReq(t *rapid.T) Req {
 		// parameterised ranges that no offer satisfies in front of one that matches, several parameterised ranges at once
 		"text/plain;format=flowed, */*", "text/html;level=1, text/html;level=2;q=0.5, */*;q=0.1", "application/json;v=2, text/*", `text/html;a="x\"y";b=c, text/plain;format=fixed;q=0.9, */*;q=0.8`,
 		// parameters that need cleaning up (empty ones, tabs) around quoted strings that are cut off - behind a backslash too
-		`text/html;;a="b\`, "text/html;\ta=\"b\\", `text/plain;;a="b`, `*/*;;a="\\\`, `text/html; ;q="`, "text/html;;a=\"b\\\"\\"})
-	add("Accept-Charset", []string{"utf-8, iso-8859-1;q=0.5", "*", ";;;"})
-	add("Accept-Encoding", []string{"gzip, br;q=0", "identity;q=0", ""})
-	add("Accept-Language", []string{"en-US,en;q=0.9,de;q=0.8", "*;q=0"})
+		`text/html;;a="b\`, "text/html;\ta=\"b\\", `text/plain;;a="b`, `*/*;;a="\\\`, `text/html; ;q="`, "text/html;;a=\"b\\\"\\",
+		// ranges that end at, or one byte behind, their ';'
+		"text/html;", "text/html; ", "text/plain;q", "*/*;x, text/plain", ";", "a/b;, c/d; "})
+	add("Accept-Charset", []string{"utf-8, iso-8859-1;q=0.5", "*", ";;;", "utf-8;", "utf-8;q"})
+	add("Accept-Encoding", []string{"gzip, br;q=0", "identity;q=0", "", ";", "gzip; "})
+	add("Accept-Language", []string{"en-US,en;q=0.9,de;q=0.8", "*;q=0", "en;q", "en;"})
 	add("Cookie", []string{"a=1; n=2", "a=1; fiber_flash=\x91\x80", "fiber_flash=\xdc\xff\xff", "fiber_flash=\xdd!!!!", "a", "=", "a=1;;b=2", "a=\"q\"", strings.Repeat("c=1; ", 100)})
 	add("X-Forwarded-For", []string{"1.2.3.4, ::1", "junk", ",,,", "1.2.3.4,", " 9.9.9.9 , 8.8.8.8", strings.Repeat("1.1.1.1, ", 60)})
 	add("X-Forwarded-Host", []string{"evil.test", "a,b", ""})
